@@ -119,7 +119,11 @@ func convOps(r rng, tier string) (ops []string, want []string) {
 			ts = r.asciiStr(3+r.Intn(3), dsyms)
 		}
 		tt := icl.VerifParseTime(ts)
-		add("ptime\t"+hx([]byte(ts)), fmt.Sprintf("%d-%d", tt.Hour(), tt.Minute()))
+		zz := 0
+		if tt.IsZero() {
+			zz = 1
+		}
+		add("ptime\t"+hx([]byte(ts)), fmt.Sprintf("%d-%d-%d", tt.Hour(), tt.Minute(), zz))
 		y, m, d := r.Intn(10000), 1+r.Intn(12), 1+r.Intn(28)
 		add(fmt.Sprintf("fdate\t%d\t%d\t%d", y, m, d), hx([]byte(icl.VerifFormatDate(mkDate(y, m, d)))))
 		h, mi := r.Intn(24), r.Intn(60)
@@ -218,7 +222,7 @@ func hostileFor(w WField, r rng) []FV {
 	case 'D':
 		return []FV{{K: 'D', Y: 1, M: 1, D: 1}, {K: 'D', Y: 0, M: 1, D: 1}, {K: 'D', Y: 9999, M: 12, D: 31}, {K: 'D', Y: 2024, M: 2, D: 29}, {K: 'D', Y: 1 + r.Intn(9998), M: 1 + r.Intn(12), D: 1 + r.Intn(28)}}
 	case 'T':
-		return []FV{{K: 'T', Y: 0, M: 0}, {K: 'T', Y: 23, M: 59}, {K: 'T', Y: r.Intn(24), M: r.Intn(60)}}
+		return []FV{{K: 'T', Y: 0, M: 0}, {K: 'T', Z: true}, {K: 'T', Y: 23, M: 59}, {K: 'T', Y: r.Intn(24), M: r.Intn(60)}}
 	}
 	var out []FV
 	for _, s := range hostileStrs {
@@ -297,7 +301,7 @@ func renderCases(r rng, tier string) []renderCase {
 			case 'D':
 				zero[w.Src] = FV{K: 'D', Y: 1, M: 1, D: 1}
 			case 'T':
-				zero[w.Src] = FV{K: 'T'}
+				zero[w.Src] = FV{K: 'T', Z: true}
 			default:
 				zero[w.Src] = FV{K: 'S'}
 			}
